@@ -953,6 +953,8 @@ C13_DIRECTED = [
     many_proposals('p1') + [{'e': 'in', 'peer': 'p2'}, {'e': 'pp', 'peers': ['p3']}, _A('p3', 1)],
     many_proposals('p1') + [_A('p1', 1), {'e': 'in', 'peer': 'p2'}],
     many_proposals('p1', 2.0, (10, 11)) + [{'e': 'in', 'peer': 'p1'}],
+    # ... that user becomes the parent and then dials in itself
+    many_proposals('p1') + [_A('p1', 1), {'e': 'in', 'peer': 'p1'}],
 ]
 
 
@@ -1329,6 +1331,8 @@ def run_c14_case(res: dict, params: dict):
         eng = Engine(w, h, peers, random.Random(f'{w.seed}:eng'), overlap=plan['overlap'],
                      indirect=plan['indirect'], judge_c13=False, aligned=bool(plan.get('aligned')))
         runner.add_cover(res, 'families', plan.get('family', 'plain'))
+        if plan.get('family') == 'many-proposals':
+            add('runs_with_many_proposals')
         holder['eng'] = eng
         _CURRENT = eng
         client = h.client
